@@ -91,7 +91,7 @@ impl SubCheck for Containers {
         "hashable_containers"
     }
     fn cases(&self, tier: Tier) -> u32 {
-        tier.pick(20000, 500000)
+        tier.pick(100000, 1500000)
     }
     fn strategy(&self, _tier: Tier) -> BoxedStrategy<ContainerCase> {
         (
@@ -319,7 +319,7 @@ impl SubCheck for States {
         "actor_model_state_near_misses"
     }
     fn cases(&self, tier: Tier) -> u32 {
-        tier.pick(30000, 600000)
+        tier.pick(150000, 2000000)
     }
     fn strategy(&self, _tier: Tier) -> BoxedStrategy<StateCase> {
         (1usize..4)
@@ -456,7 +456,7 @@ impl SubCheck for Misc {
         "clocks_maps_networks_testers"
     }
     fn cases(&self, tier: Tier) -> u32 {
-        tier.pick(20000, 400000)
+        tier.pick(100000, 1200000)
     }
     fn strategy(&self, _tier: Tier) -> BoxedStrategy<MiscCase> {
         let v = || proptest::collection::vec(0u32..3, 0..5);
@@ -543,7 +543,7 @@ impl SubCheck for Reachable {
         "reachable_states_of_actor_systems"
     }
     fn cases(&self, tier: Tier) -> u32 {
-        tier.pick(300, 6000)
+        tier.pick(1200, 15000)
     }
     fn strategy(&self, _tier: Tier) -> BoxedStrategy<Self::Case> {
         let mut p = SysParams::general();
